@@ -425,7 +425,7 @@ func main() {
 		},
 		Deadline: func(tier string) time.Duration {
 			if tier == "thorough" {
-				return 120 * time.Minute
+				return 25 * time.Minute
 			}
 			return 10 * time.Minute
 		},
